@@ -104,6 +104,6 @@ SUBS = [
 
 MANIFEST = {
     "technique": "property-based round-trip testing: Hypothesis model generator for the Glencoe fragment, n write/read cycles, oracle = generating spec (names, tree, positional truth-table equivalence of constraints) plus byte/observation idempotence",
-    "level_text": "Generated Glencoe-fragment models are written and read 2-4 times; cycle 1 is compared with the spec, later cycles byte for byte with the previous one. Sampling only.",
+    "level_text": "Generated Glencoe-fragment models are written and read 2-4 times; cycle 1 is compared with the spec, later cycles byte for byte with the previous one. Sampling only. Also: models of 250-500 features with up to 120 constraints, wide groups, shared-node constraint trees, and the same-path decoys / relative paths / other file system of C01. A sample of every sub-check additionally runs in a `python -OO` child with the root logger at DEBUG.",
     "level_note": "Trusted: vf/build.py, vf/roundtrip.py, vf/logic.py truth tables, Hypothesis.",
 }
